@@ -12,7 +12,8 @@ from debian.copyright import Copyright, FilesParagraph, Header
 
 from .global_licensing import REUSE_TOML_VERSION
 
-_SINGLE_ASTERISK_PATTERN = re.compile(r"(?<!\*)\*(?!\*)")
+# An escaped character (which is left alone), or a run of asterisks.
+_ASTERISKS_PATTERN = re.compile(r"\\.|\*+", re.DOTALL)
 
 _T = TypeVar("_T")
 
@@ -58,7 +59,12 @@ def _convert_asterisk(path: str) -> str:
     """This solves a semantics difference. A singular asterisk is semantically
     identical to a double asterisk in REUSE.toml.
     """
-    return _SINGLE_ASTERISK_PATTERN.sub("**", path)
+
+    def double(match: re.Match) -> str:
+        text: str = match.group(0)
+        return "**" if text == "*" else text
+
+    return _ASTERISKS_PATTERN.sub(double, path)
 
 
 def _paths_from_paragraph(paragraph: FilesParagraph) -> Union[str, list[str]]:
